@@ -2,6 +2,7 @@
 pub mod boolfn;
 pub mod datalog_pos;
 pub mod expiry_fixpoint;
+pub mod lineage_tt;
 pub mod loader;
 pub mod sparql_ast;
 pub mod sparql_eval;
@@ -15,6 +16,7 @@ pub fn selftest() -> Vec<String> {
     errs.extend(boolfn::selftest());
     errs.extend(datalog_pos::selftest());
     errs.extend(expiry_fixpoint::selftest());
+    errs.extend(lineage_tt::selftest());
     errs.extend(loader::selftest());
     errs.extend(sparql_eval::selftest());
     errs.extend(termdb::selftest());
